@@ -296,7 +296,7 @@ func VerifW() {
 			prevKind = 3
 		default:
 			if p.State() == ObjectValueState {
-				vAssert(gt == StringGrammar && data[0] == '"', "key-not-string")
+				vAssert(gt == StringGrammar && data[0] == '"' && data[len(data)-1] == '"', "key-not-string")
 				prevKind = 2
 			} else {
 				prevKind = 3
